@@ -36,7 +36,7 @@ def veq(sh, res, sv):
     return ['%s.%s.v@ == %s' % (res, sh.fields[i], X.verus(sv[i])) for i in range(sh.dim)]
 
 
-def add_mat_struct(u, ms):
+def add_mat_struct(u, ms, conv=True):
     """new / zero / identity / transposed / From<Transpose>"""
     P, N, n = ms.path, ms.name, ms.n
     gh = 'impl<T>%s<T>' % N
@@ -49,6 +49,8 @@ def add_mat_struct(u, ms):
                                          for i in range(n) for j in range(n)]))
     u.take(P, gh, 'transposed', C(ensures=['%s == %s' % (ms.at('res', i, j), ms.at('self', j, i))
                                            for i in range(n) for j in range(n)]), mode='G')
+    if not conv:
+        return
     hdr = 'impl<T> From<Transpose<T>> for %s<T>' % N
     u.take_impl(P, hdr, mode='G')
     u.from_given.add(norm(hdr))
